@@ -7,6 +7,13 @@ Case kinds
              objects (lists, the distribution object) are long-lived and updated in place between the calls, the
              results of a step may be modified by the caller ("touch") before the next step, and every result is
              looked at again after the last step.  Siblings differ from the previous step in one component.
+  representing / scale with "eng" / "ties"
+             inputs ENGINEERED per branch of the stage that corrects the rounded numbers: p*n chosen entry by entry so
+             that the rounded counts overshoot / undershoot n by 1..6 (odd+1/2 and even+1/2: round half to even; 1/2 +- eps),
+             rare outcomes (0 < p*n <= 1/2: weight in the draw, no shot) next to dominant ones, explicit p = 0, n = 1..20000,
+             outcomes of up to 70 sites and multi-level entries; every such input is asked with SEVERAL numpy seeds so that
+             each random branch (top-up on an outcome without a shot, elimination drawn on an outcome without / with too few
+             shots and drawn again) is taken; weight lists whose leftover units end inside a group of equal remainders
   pipeline   expand_sample_sizes -> split_into_batches -> (a runner delivering exactly the requested shots per copy)
              -> combine_bitstrings / combine_measurement_counts with the RETURNED objects (oracle only)
 Arguments are always fresh copies of the case data (never the case's own lists), so a function that modifies its
@@ -22,14 +29,22 @@ from ..common import rat, unrat
 PROP = "C13"
 RULE = ("seeded random inputs per mechanism (expand/expand_sizes/combine_bitstrings/combine_counts/batches/scale/"
         "representing) plus an exhaustive (n,max) grid, call histories on long-lived argument objects (seq) and "
-        "expand->batch->run->combine pipelines; non-trivial: n not a multiple of max with >=2 circuits, "
+        "expand->batch->run->combine pipelines; distributions engineered per branch of the random correction stage "
+        "(overshoot / undershoot by 1..6 after rounding, outcomes with weight but no shot, half-integers, explicit zeros, "
+        "n = 1..20000, wide and multi-level outcomes) each asked with 5 (thorough: 8) numpy seeds; weight lists whose cut "
+        "falls inside a group of equal remainders; non-trivial: n not a multiple of max with >=2 circuits, "
         "a batch list with a ragged last batch, a distribution needing top-up or elimination, weights with a "
         "non-zero leftover, a history of >=2 calls, a pipeline with an expanded circuit; distinct = distinct "
         "canonical JSON of the case")
 TRUSTED = ["np.random.choice(size=k) returns exactly k draws, never an outcome of weight 0 (law assumed in "
            "representing_length / representing_support)",
+           "the random correction stage is observed on the draws that np.random.seed(s) produces for the 5 (thorough: 8) "
+           "seeds s tried per engineered (distribution, n) pair, not on every possible draw (all draws: theorems "
+           "representing_length / representing_support on the model and translated_representing_* on the translated code)",
            "float arithmetic is exact on the dyadic inputs used for model comparison; other inputs are checked by the oracle only"]
 ASSUMPTIONS = ["Python int // and % with positive divisor = Lean Int ediv/emod",
+               "distributions given to get_measurements_representing_distribution are normalised (probabilities are exact "
+               "rationals summing to 1, handed over as the nearest doubles); support = outcomes with p > 0",
                "scale_and_discretize: totals below 2**52 (where the float shares still have a fractional part); "
                "from 2**52 on see finding F18 in KNOWN_FINDINGS.txt"]
 
@@ -118,6 +133,20 @@ def corpus():
         {"kind": "representing", "dist": [["00", "1/2"], ["01", 0], ["10", 0], ["11", "1/2"]], "n": 1, "seed": 11},
         {"kind": "representing", "dist": third, "n": 100001, "seed": 9, "tuples": True},
         {"kind": "pipeline", "labels": [0, 0, 1], "ns": [7, 3, 5], "m": 3, "batch": 2, "objs": "same"},
+        # ---- the random correction stage, one (distribution, n) pair asked with several numpy seeds
+        # 8 shots: 4 x 1.5 -> 2 each, 1 -> 1 (9 shots: ONE too many), three outcomes with 0.5 / 0.25 / 0.25 -> no shot but
+        # weight in the draw: with seeds 0, 3, 5 the outcome drawn for elimination has no shot and is drawn again
+        {"kind": "seq", "reuse": False, "steps": [
+            {"kind": "representing", "n": 8, "seed": sd, "eng": "over",
+             "dist": [["000", "3/16"], ["001", "1/16"], ["010", "3/16"], ["011", "1/32"], ["100", "3/16"], ["101", "1/8"],
+                      ["110", "1/32"], ["111", "3/16"]]} for sd in (0, 1, 3, 5)]},
+        # 4 shots: 4 x 0.5 -> 0 each (half to even), 2 -> 2: TWO too few, every top-up lands on an outcome without a shot;
+        # an outcome of probability 0 is listed
+        {"kind": "seq", "reuse": True, "steps": [
+            {"kind": "representing", "n": 4, "seed": sd, "eng": "under",
+             "dist": [["000", "1/8"], ["001", "1/8"], ["010", "1/8"], ["011", 0], ["100", "1/8"], ["111", "1/2"]]} for sd in (0, 1, 2)]},
+        # 3 units for shares 0.375 x 4 and 0.75 x 2: the cut falls inside the group of four equal remainders
+        {"kind": "scale", "values": [1, 2, 1, 1, 2, 1], "total": 3, "exact": True, "ties": True},
         # ---- finding F18: totals from 2**52 on, where floats have no fractional part left (see KNOWN_FINDINGS.txt)
         {"kind": "scale", "values": [1, 2, 5], "total": 2 ** 53 + 1, "exact": False},
         {"kind": "scale", "values": ["2726259306200869/9007199254740992", "2325987016849297/2251799813685248"], "total": 8032965932052385, "exact": False},
@@ -320,6 +349,225 @@ def _gen_representing_inexact(rng, big=False):
     else:
         n = rng.randrange(1, 300)
     return {"kind": "representing", "dist": dist, "n": n, "seed": rng.randrange(2 ** 31), "exact": False}
+
+
+# ---- distributions ENGINEERED for the branches of the random correction stage --------------------------------------
+# get_measurements_representing_distribution rounds x_i = p_i * n per outcome (round half to even) and then corrects the
+# total at random: too few shots -> outcomes are DRAWN and added, too many -> outcomes are drawn and ELIMINATED, a draw
+# that cannot be subtracted (the outcome has no / not enough shots) is drawn again.  Which branch a call takes depends
+# on the SHAPE of the x_i (how many round up / down, by how much, whether outcomes with weight have no shot at all) AND
+# on the draw, so every engineered shape is asked with several numpy seeds.
+def _rep_shape(dist, n):
+    """the branch a (distribution, n) pair reaches, recomputed here in doubles: for steering the generator and for the
+    input-distribution histogram only (the oracle judges length and support and never looks at this)"""
+    xs = [float(unrat(p)) * n for _, p in dist]
+    rs = [int(round(x)) for x in xs]
+    ws = [0.5 - abs(0.5 - x % 1) for x in xs]
+    return {"off": sum(rs) - n,
+            "zero_shot_weighted": sum(1 for r, w in zip(rs, ws) if r == 0 and w > 0),
+            "p0": sum(1 for _, p in dist if unrat(p) == 0),
+            "halves": sum(1 for x in xs if x % 1 == 0.5),
+            "min_present": min((r for r in rs if r > 0), default=0)}
+
+
+def _eng_keys(rng, k, how):
+    """k distinct outcomes: a narrow register, a wide one (17..70 sites, outcomes differing in ONE far site), or
+    multi-level entries (two-digit values included; written 'a,b,c')"""
+    if how == "tuples":
+        width = 1
+        while 7 ** width < 2 * k:
+            width += 1
+        width += rng.randrange(0, 2)
+        keys = set()
+        while len(keys) < k:
+            keys.add(",".join(str(rng.choice([0, 1, 2, 9, 10, 11, 12])) for _ in range(width)))
+        keys = sorted(keys)
+        rng.shuffle(keys)
+        return keys
+    if how == "wide":
+        w = rng.choice([17, 31, 32, 33, 63, 64, 65, 70])
+        base = rng.getrandbits(w)
+        pos = [0, w - 1] + rng.sample(range(1, w - 1), w - 2)
+        vals = [base] + [base ^ (1 << b) for b in pos]
+        vals = vals[:k]
+        seen = set(vals)
+        while len(vals) < k:
+            v = rng.getrandbits(w)
+            if v not in seen:
+                seen.add(v)
+                vals.append(v)
+        rng.shuffle(vals)
+        return [format(v, f"0{w}b") for v in vals]
+    w = max(1, (k - 1).bit_length()) + rng.randrange(0, 3)
+    return [format(v, f"0{w}b") for v in rng.sample(range(2 ** w), k)]
+
+
+_ENG_WANTS = ["over", "over", "over", "under", "under", "exact"]
+
+
+def _gen_representing_engineered(rng, exact=None, want=None, keys=None, n=None):
+    """x_i = p_i * n chosen entry by entry:
+         rare     0 < x < 1/2 (also x = 1/2, which rounds to 0: half to even): NO shot after rounding, but weight in the draw
+         up       odd + 1/2, f + 1/2 + eps, f + (something above 1/2): rounds up, about +1/2 shot each
+         down     even + 1/2, f + 1/2 - eps, f + (something below 1/2), f >= 1: rounds down, about -1/2 shot each
+         integer  has shots, weight 0 in the draw;   zero  p = 0 listed explicitly;   dominant  whatever is left of n
+       with the numbers of entries chosen for an OVERSHOOT / UNDERSHOOT of d = 1..6 shots (or none) after rounding.
+       exact: n a power of two and x on a dyadic grid (doubles exact, compared with the model); otherwise any n up to
+       20000 and decimal grids (p * n in doubles lands just above / just below the intended value; oracle only)."""
+    F = Fraction
+    if exact is None:
+        exact = rng.random() < 0.5
+    if exact:
+        n = n or 2 ** rng.choice([0, 1, 2, 3, 3, 4, 5, 6, 7, 8, 10, 11])
+        grid = rng.choice([4, 8, 16, 64, 1024])
+    else:
+        n = n or rng.choice([1, 2, 3, 5, 7, 10, 33, 100, 101, 999, 1000, 1023, 4999, rng.randrange(1, 300),
+                             rng.randrange(1000, 20000)])
+        grid = rng.choice([10, 100, 1000, 10 ** 6])
+    half = grid // 2
+    want = want or rng.choice(_ENG_WANTS)
+    d = rng.choice([1, 1, 1, 2, 2, 3, 4, 6])
+    z = rng.choice([0, 1, 1, 2, 3, 6])
+    base = rng.choice([0, 0, 1, 1, 3, 8])  # smallest floor of the entries that have shots
+
+    def rare():
+        return rng.choice([F(1, grid), F(half - 1, grid), F(half - 1, grid), F(rng.randrange(1, half), grid), F(1, 2)])
+
+    def up():
+        f = base + rng.randrange(0, 3)
+        t = rng.random()
+        if t < 0.5:
+            return F(f | 1) + F(1, 2)
+        if t < 0.85:
+            return F(f) + F(half + 1, grid)
+        return F(f) + F(rng.randrange(half + 1, grid), grid)
+
+    def down():
+        f = max(1, base) + rng.randrange(0, 3)
+        t = rng.random()
+        if t < 0.5:
+            return F(f + (f & 1)) + F(1, 2)
+        if t < 0.85:
+            return F(f) + F(half - 1, grid)
+        return F(f) + F(rng.randrange(1, half), grid)
+
+    rares = [rare() for _ in range(z)]
+    r_tot = sum(rares)
+    if want == "over":
+        t = -((-2 * (d + r_tot)) // 1)
+    elif want == "under":
+        t = round(2 * (r_tot - d))
+    else:
+        t = round(2 * r_tot)
+    nu, nd = (int(t), 0) if t >= 0 else (0, int(-t))
+    pairs = rng.choice([0, 0, 1, 2, 5])  # further half-integers, one up and one down each
+    movers = [up() for _ in range(nu + pairs)] + [down() for _ in range(nd + pairs)]
+    movers += [F(max(1, base) + rng.randrange(0, 3)) for _ in range(rng.choice([0, 0, 1, 3]))]
+    # small n: drop entries until the rest fits (the shape is then whatever is left; it is classified afterwards)
+    movers.sort()
+    while movers and sum(movers) + r_tot > n:
+        movers.pop()
+    while rares and sum(movers) + sum(rares) > n:
+        rares.pop()
+    xs = rares + movers
+    dom = n - sum(xs)
+    if dom > 0:
+        if dom > 2 and rng.random() < 0.25:
+            a = F(rng.randrange(1, int(dom)))  # two dominant outcomes, one of them an integer number of shots
+            xs += [a, dom - a]
+        else:
+            xs.append(dom)
+    # outcomes of probability 0 listed explicitly: none, a few, or MANY (a draw that gives them any weight at all then hits one)
+    xs += [F(0)] * rng.choice([0, 0, 1, 3, 12, 40])
+    rng.shuffle(xs)
+    how = keys or rng.choice(["narrow", "narrow", "narrow", "wide", "tuples"])
+    names = _eng_keys(rng, len(xs), how)
+    c = {"kind": "representing", "dist": [[k2, rat(x / n)] for k2, x in zip(names, xs)], "n": n,
+         "seed": rng.randrange(2 ** 31), "eng": want}
+    if how == "tuples":
+        c["tuples"] = True
+    if not exact:
+        c["exact"] = False
+    return c
+
+
+def _eng_class(c):
+    """name of the correction-stage branch of a representing case (histogram key)"""
+    s = _rep_shape(c["dist"], c["n"])
+    if s["off"] == 0:
+        name = "no_correction"
+    else:
+        name = ("overshoot_" if s["off"] > 0 else "undershoot_") + ("1" if abs(s["off"]) == 1 else "2" if abs(s["off"]) == 2 else "3plus")
+    if s["zero_shot_weighted"]:
+        name += "+outcomes_with_weight_but_no_shot"
+    return name
+
+
+def _gen_engineered_batch(rng, shapes, seeds):
+    """`shapes` engineered distributions, the wanted branches taken in turn, EACH asked with `seeds` numpy seeds"""
+    out = []
+    for i in range(shapes):
+        want = _ENG_WANTS[i % len(_ENG_WANTS)]
+        c = None
+        for _ in range(12):
+            c = _gen_representing_engineered(rng, want=want)
+            s = _rep_shape(c["dist"], c["n"])
+            if (want == "over" and s["off"] > 0) or (want == "under" and s["off"] < 0) or (want == "exact" and s["off"] == 0):
+                break
+        if rng.random() < 0.1:
+            _flags(rng, c, objs=False, tup=False)
+        for _ in range(seeds):
+            out.append(dict(copy.deepcopy(c), seed=rng.randrange(2 ** 31)))
+    return out
+
+
+def _gen_scale_ties(rng, exact=True):
+    """scale_and_discretize where SEVERAL entries have the same remainder and the leftover units do not go round:
+    groups of equal weights (so equal shares, equal remainders) and a total that leaves 1..k units to hand out, the
+    cut falling inside a group of equal remainders; exact: weights sum to a power of two (doubles exact, model
+    compared: floors plus 0/1, the leftover handed to the largest remainders, any order inside a tie)"""
+    for _ in range(40):
+        groups = rng.randrange(1, 4)
+        vals = []
+        for _g in range(groups):
+            vals += [rng.choice([1, 1, 2, 3, 5, 6])] * rng.choice([2, 3, 4, 7, 16])
+        if exact:
+            s = sum(vals)
+            p2 = 1
+            while p2 < s:
+                p2 *= 2
+            if p2 > s:
+                vals.append(p2 - s)
+        rng.shuffle(vals)
+        s = sum(vals)
+        total = rng.choice([rng.randrange(1, len(vals) + 1), rng.randrange(1, 4 * len(vals) + 2), s + rng.choice([-1, 1]),
+                            rng.randrange(1, 3) * s + rng.randrange(1, len(vals))])
+        if total < 1:
+            continue
+        rem = [(Fraction(v * total, s)) % 1 for v in vals]
+        left = total - sum((v * total) // s for v in vals)
+        if left == 0:
+            continue
+        cut = sorted(rem, reverse=True)[left - 1]
+        if sum(1 for r in rem if r > cut) < left < sum(1 for r in rem if r >= cut):
+            break
+    scale = Fraction(1, rng.choice([1, 1, 2, 8])) if exact else Fraction(1, rng.choice([1, 3, 10]))
+    c = {"kind": "scale", "values": [rat(v * scale) for v in vals], "total": total, "exact": bool(exact), "ties": True}
+    return c
+
+
+def _scale_cut_in_tie(c):
+    """does the cut between bumped and unbumped entries fall inside a group of equal (exact) remainders?"""
+    vals = [unrat(v) for v in c["values"]]
+    s, total = sum(vals), c["total"]
+    if s <= 0 or total >= 2 ** 52:
+        return False
+    rem = [(v * total / s) % 1 for v in vals]
+    left = total - sum((v * total / s) // 1 for v in vals)
+    if left <= 0:
+        return False
+    cut = sorted(rem, reverse=True)[int(left) - 1]
+    return sum(1 for r in rem if r > cut) < left < sum(1 for r in rem if r >= cut)
 
 
 def _sibling(rng, c):
@@ -579,6 +827,17 @@ def generate(rng, tier):
         cases.append(_gen_representing_inexact(rng))
     for _ in range(12 if big else 4):
         cases.append(_gen_representing_inexact(rng, big=True))
+    # ---- the random correction stage: shapes engineered per branch (overshoot / undershoot by 1..6, rare outcomes without a
+    # shot, half-integers, explicit zeros, n = 1 .. 20000, wide and multi-level outcomes), EACH with several numpy seeds
+    cases.extend(_gen_engineered_batch(rng, 240 if big else 54, 8 if big else 5))
+    for _ in range(40 if big else 8):
+        # the same engineered distribution asked again and again in ONE process (also on the caller's long-lived object),
+        # only the state of numpy's generator differs from call to call
+        base = _gen_representing_engineered(rng, want=rng.choice(["over", "over", "under"]))
+        steps = [dict(copy.deepcopy(base), seed=rng.randrange(2 ** 31)) for _ in range(4)]
+        cases.append({"kind": "seq", "reuse": rng.random() < 0.5, "steps": steps})
+    for _ in range(200 if big else 40):
+        cases.append(_flags(rng, _gen_scale_ties(rng, exact=rng.random() < 0.7), objs=False))
     # ---- histories
     for _ in range(150 if big else 30):
         # expansions asked one after the other: same n / other max (both directions), same max / other n,
@@ -619,7 +878,8 @@ def generate(rng, tier):
         cases.append(_history(rng, _gen_scale(rng)))
     for _ in range(400 if big else 90):
         g = rng.choice([_gen_representing, _gen_representing_uniform, _gen_representing_partial_support,
-                        _gen_representing_tuples, _gen_representing_heavy, _gen_representing_heavy])
+                        _gen_representing_tuples, _gen_representing_heavy, _gen_representing_heavy,
+                        _gen_representing_engineered, _gen_representing_engineered])
         cases.append(_history(rng, g(rng)))
     for _ in range(60 if big else 12):
         # outcomes whose digits concatenate to the same text: (1,0) and (10,), (1,1,2) and (11,2) …
@@ -1209,7 +1469,22 @@ def distribution(cases, outs):
                 yield c
     rej = sum(1 for o in outs if isinstance(o, dict) and o.get("err"))
     allc = list(flat(cases))
+    # the branches of the random correction stage reached by ALL representing calls (engineered or not), and how many
+    # (distribution, n) pairs were asked with several numpy seeds
+    branches, per_shape = Counter(), Counter()
+    for c in allc:
+        if c["kind"] == "representing":
+            branches[_eng_class(c)] += 1
+            per_shape[common.canon([c["dist"], c["n"]])] += 1
     return {"rejected_requests": rej,
+            "representing_correction_branches": dict(sorted(branches.items())),
+            "representing_inputs_asked_with_3_or_more_seeds": sum(1 for v in per_shape.values() if v >= 3),
+            "representing_engineered_calls": sum(1 for c in allc if c.get("eng")),
+            "representing_explicit_zero_probability": sum(1 for c in allc if c["kind"] == "representing"
+                                                          and any(unrat(p) == 0 for _, p in c["dist"])),
+            "representing_outcomes_wider_than_32_sites": sum(1 for c in allc if c["kind"] == "representing" and not c.get("tuples")
+                                                             and len(c["dist"][0][0]) > 32),
+            "scale_cut_inside_group_of_equal_remainders": sum(1 for c in allc if c["kind"] == "scale" and _scale_cut_in_tie(c)),
             "calls_including_history_steps": len(allc),
             "histories_reusing_argument_objects": sum(1 for c in cases if c["kind"] == "seq" and c.get("reuse")),
             "steps_touching_their_result": sum(1 for c in allc if c.get("touch")),
